@@ -207,6 +207,42 @@ def check(v, prop, families, extra_clause_props=(), also=()):
                           'distinct = distinct program text; non-trivial = at least one request/setup/close reached an application callback. '
                           'states/transitions = TLC states over design-level configs plus trace-validation runs')
     v.add('steps_executed', sum(s['done'] for s in scns))
+    # what the scenarios actually exercised (a vacuity record: a pattern the generators aim at but that never happens shows as 0)
+    ex = v.coverage.setdefault('exercised', {})
+
+    def bump(k, n=1):
+        ex[k] = ex.get(k, 0) + n
+
+    for sc in scns:
+        seen_req = set()
+        closed = set()
+        cancelled = set()
+        last = None
+        for e in sc['events']:
+            k = e['ev']
+            if k in ('inject', 'cut', 'app_reconnect', 'app_close', 'app_cancel', 'app_fut_cancel', 'cb_keepalive_timeout', 'app_lease'):
+                bump(k)
+            if k == 'app_request_n' and e.get('x') == 1:
+                bump('request_n_from_inside_a_callback')
+            if k == 'app_cancel' and last is not None and last['ev'] in ('cb_subscribe', 'cb_next') and last.get('iid') == e.get('iid'):
+                bump('cancel_from_inside_a_callback')
+            if k == 'enq' and e['ft'].startswith('REQUEST_') and e['ft'] != 'REQUEST_N':
+                if (e['ep'], e['sid']) in seen_req:
+                    bump('stream_id_used_again')
+                seen_req.add((e['ep'], e['sid']))
+            if k == 'tx' and e.get('F'):
+                bump('fragments_written')
+            if k == 'cb_close':
+                closed.add(e['ep'])
+            if k == 'rx' and e['ep'] in closed:
+                bump('frames_read_after_close')
+            if k == 'rx' and last is not None and last['ev'] == 'rx' and last['ep'] == e['ep'] and e['ft'] == 'CANCEL' and last.get('sid') == e.get('sid') \
+                    and last['ft'].startswith('REQUEST_'):
+                bump('cancel_in_the_same_read_as_its_request')
+            if k == 'cut' and last is not None and last['ev'] in ('rx', 'cb_request', 'cb_next', 'cb_complete', 'cb_error', 'cb_future') and last['ep'] == e['ep']:
+                bump('loss_right_after_a_frame_was_handled')
+            if k != 'bytes_in':
+                last = e
     v.add('steps_skipped_inapplicable', sum(s['skipped'] for s in scns))
     v.coverage.setdefault('other_properties_observed', {})
     for c, n in others.items():
